@@ -181,9 +181,40 @@ def optimizers(rng):
     return outs
 
 
+# fixed programs run first in every tier, each at the admission boundary of its unoptimized plan (allowed_mem = max
+# projected_mem of the unoptimized plan, +1, +4): a three-input op whose first argument cannot be fused and whose other
+# predecessors are heavier than the op itself (the fusion memory test must look at *all* fusable predecessors)
+CORPUS = [
+    {"n": 4, "inputs": [{"chunks": [2, 2], "salt": 0}, {"chunks": [2, 2], "salt": 1}],
+     "steps": [{"op": "where3", "a": 0, "b": 1, "c": 0, "chunks": [2, 2]}], "outputs": [2]},
+    {"n": 6, "inputs": [{"chunks": [3, 2], "salt": 0}, {"chunks": [3, 2], "salt": 1}, {"chunks": [3, 2], "salt": 2}],
+     "steps": [{"op": "neg", "a": 1, "b": 0, "c": 0, "chunks": [3, 2]}, {"op": "where3", "a": 0, "b": 3, "c": 2, "chunks": [3, 2]}],
+     "outputs": [4]},
+    {"n": 4, "inputs": [{"chunks": [1, 4], "salt": 0}],
+     "steps": [{"op": "where3", "a": 0, "b": 0, "c": 0, "chunks": [1, 4]}, {"op": "add", "a": 1, "b": 0, "c": 0, "chunks": [1, 4]}],
+     "outputs": [2]},
+]
+
+
+def boundary_corpus(ctx):
+    import cubed
+    for prog in CORPUS:
+        try:
+            vals = dx.build(prog, cubed.Spec(allowed_mem=500_000_000, reserved_mem=0))
+            m = plan_of([vals[i] for i in prog["outputs"]], optimize_graph=False).max_projected_mem
+        except Exception as e:
+            ctx.fail("fixed corpus program no longer builds: %s: %s" % (type(e).__name__, e), {"program": prog})
+            continue
+        for a in (m, m + 1, m + 4):
+            fits_case(ctx, prog, a, 0, None, "default")
+
+
 def oracle(ctx, nprog=None):
     import cubed
     Rec = make_exec()
+    if not getattr(ctx, "_c04_corpus_done", False):
+        ctx._c04_corpus_done = True
+        boundary_corpus(ctx)
     nprog = nprog or ctx.budget(8, 28)
     for _ in range(nprog):
         prog = dx.gen_dag_program(ctx.rng)
